@@ -657,7 +657,7 @@ def to_matched_score(
 
     # pair matched score and performance notes
     note_pairs = [
-        (part_by_id[a["score_id"]], ppart_by_id[a["performance_id"]])
+        (part_by_id[a["score_id"]][0], ppart_by_id[a["performance_id"]][0])
         for a in alignment
         if (a["label"] == "match" and a["score_id"] in part_by_id)
     ]
@@ -827,8 +827,8 @@ def get_matched_notes(spart_note_array, ppart_note_array, alignment):
             s_idx = np.where(spart_note_array["id"] == al["score_id"])[0]
 
             if len(s_idx) > 0 and len(p_idx) > 0:
-                s_idx = int(s_idx)
-                p_idx = int(p_idx)
+                s_idx = int(s_idx[0])
+                p_idx = int(p_idx[0])
                 matched_idxs.append((s_idx, p_idx))
 
     if len(matched_idxs) == 0:
